@@ -274,7 +274,7 @@ fn judge_affine_exact(st: &mut Stats, ty: Ty, class: &str, a: &AffInt, k: u32) {
                 fr += qr * xi[j].0 - qi * xi[j].1;
                 fi += qr * xi[j].1 + qi * xi[j].0;
             }
-            if fr.abs() >= 1i128 << 52 || fi.abs() >= 1i128 << 52 || o.len() != m { cert = false; break 'c; }
+            if !repr53(fr) || !repr53(fi) || o.len() != m { cert = false; break 'c; }
             if o[i].re * pow2(sh as i32) != fr as f64 || o[i].im * pow2(sh as i32) != fi as f64 { cert = false; break 'c; }
         }
     }
@@ -289,6 +289,27 @@ fn judge_affine_exact(st: &mut Stats, ty: Ty, class: &str, a: &AffInt, k: u32) {
         st.violation(&format!("C18:{}:{}:affine-not-exact", ty.site(), ty.name()),
             format!("entry ({},{}) = {:?} but M entry is {:?} (all operations exact on this data); J(row-major)={:?}; {}", e / n, e % n, jac.ent[e], mf[e], jac.ent, desc()));
     }
+}
+
+/// v/2^s is a double exactly when the odd part of v has at most 53 bits (the exponent range is never an issue here)
+fn repr53(v: i128) -> bool { if v == 0 { return true; } let t = v.unsigned_abs(); (t >> t.trailing_zeros()) < (1u128 << 53) }
+
+/// wide dynamic range inside a row: small dyadic entries M_ij = q/2^s (|q| <= 3, s <= 6) next to an offset c_i of up to
+/// 2^(52-k-s), the largest for which every closure value is still an exact double: the increment M_ij*delta is then as
+/// small as ONE unit in the last place of f_i(x) - exact data, not rounding noise
+fn gen_affine_wide(rng: &mut Rng, ty: Ty, m: usize, n: usize, k: u32) -> AffInt {
+    let cplx = ty == Ty::C && rng.bool();
+    let sm = rng.below(7) as u32;
+    let mut mq = vec![(0i64, 0i64); m * n];
+    for e in mq.iter_mut() { if rng.chance(0.8) { *e = (rng.int(-3, 3), if cplx { rng.int(-3, 3) } else { 0 }); } }
+    let cq: Vec<(i64, i64)> = (0..m).map(|_| {
+        let e = (52 - k as i64 - sm as i64 - rng.below(3) as i64).max(8);
+        let big = |rng: &mut Rng| (if rng.bool() { 1 } else { -1 }) * ((1i64 << e) + if rng.bool() { 0 } else { rng.int(0, 64) });
+        let re = big(rng);
+        (re, if cplx { if rng.bool() { big(rng) } else { rng.int(-64, 64) } } else { 0 })
+    }).collect();
+    let xp: Vec<(i64, i64)> = (0..n).map(|_| (rng.int(-64, 64), if cplx { rng.int(-64, 64) } else { 0 })).collect();
+    AffInt { m, n, mq, sm, cq, sc: 0, xp }
 }
 
 fn gen_affine(rng: &mut Rng, ty: Ty, m: usize, n: usize) -> (AffInt, &'static str) {
@@ -575,6 +596,8 @@ pub fn run(ctx: &Ctx) -> Report {
             for k in KMIN..=KMAX {
                 let (a, class) = gen_affine(rng, ty, m, n);
                 judge_affine_exact(st, ty, class, &a, k);
+                let a = gen_affine_wide(rng, ty, m, n, k);
+                judge_affine_exact(st, ty, "wide-row", &a, k);
             }
             for k in KMIN..=KMAX + 1 {
                 let (delta, dname) = if k <= KMAX { (pow2(-(k as i32)), format!("2^-{:02}", k)) } else { (1e-8, "1e-8".to_string()) };
@@ -585,7 +608,7 @@ pub fn run(ctx: &Ctx) -> Report {
         }
     });
     let mut rep = Report::new(stats,
-        "cases: every shape (m,n) in [1,6]^2 x {f64 via Mat64::jacobian, Cmplx via jacobian_cmplx}; per shape and type (i) affine maps x->Mx+c with dyadic M (q/2^s, |q|<=64, s<=3; dense / sparse / small-integer / signed-selection patterns), dyadic c and points k/16 in [-4,4]^n (Gaussian-dyadic in the complex case) for EVERY step delta=2^-k, k=4..26, plus a seed-independent sweep (index-coded M with all entries distinct at 4 fixed points x all k); (ii) for every delta in {2^-4..2^-26, 1e-8} a random map built from terms {const, a*x_p, a*x_p*x_q, a*x_p^2*x_q, a*sin(w.x+b), a*exp(w.x+b), a/(8+x_p), a/(1+x_p^2) (real only)} (class smooth, 1-3 terms per component) or a general-coefficient affine map (class affine-general) at general / dyadic / special points in [-4,4]^n. The closure logs all call points and returned values. A case is non-trivial when the analytic Jacobian has a nonzero entry; distinct = distinct (type, class, m, n, delta, map data, point) hashes");
+        "cases: every shape (m,n) in [1,6]^2 x {f64 via Mat64::jacobian, Cmplx via jacobian_cmplx}; per shape and type (i) affine maps x->Mx+c with dyadic M (q/2^s, |q|<=64, s<=3; dense / sparse / small-integer / signed-selection patterns; plus a wide-row class: entries q/2^s with |q|<=3, s<=6 next to offsets c_i of up to 2^(52-k-s), where the exact increment M_ij*delta is as small as one ulp of f_i), dyadic c and points k/16 in [-4,4]^n (Gaussian-dyadic in the complex case) for EVERY step delta=2^-k, k=4..26, plus a seed-independent sweep (index-coded M with all entries distinct at 4 fixed points x all k); (ii) for every delta in {2^-4..2^-26, 1e-8} a random map built from terms {const, a*x_p, a*x_p*x_q, a*x_p^2*x_q, a*sin(w.x+b), a*exp(w.x+b), a/(8+x_p), a/(1+x_p^2) (real only)} (class smooth, 1-3 terms per component) or a general-coefficient affine map (class affine-general) at general / dyadic / special points in [-4,4]^n. The closure logs all call points and returned values. A case is non-trivial when the analytic Jacobian has a nonzero entry; distinct = distinct (type, class, m, n, delta, map data, point) hashes");
     rep.assumptions = vec![
         "affine-exact cases: exactness of every f64 operation is certified per case by an integer (2^-29 grid) model of the logged closure calls; a failed certificate is a harness error, never a verdict".into(),
         "call log follows DESIGN: exactly n+1 calls, call 0 at x, call j+1 at x+delta*e_j; coordinates l>j bit-equal to x_l; coordinates l<=j bit-equal on dyadic data, within 256*u*(|x_l|+delta) on general data (rigorous rounding bound of (x+d)-d is 2 such units)".into(),
